@@ -19,11 +19,32 @@ func (s *vAbs) last() uint64 { return s.base + uint64(len(s.ents)) }
 
 // vCrashProgram: `steps` operations, crash injected at the crashAt-th stub boundary (0 = after the program),
 // powerLoss selects the crash model.
-func vCrashProgram(steps int, segSize int, powerLoss bool) {
+func vCrashProgram(steps int, segSize int, powerLoss bool) { vCrashProgramFrom(0, steps, segSize, powerLoss) }
+
+// vCrashProgramFrom: as vCrashProgram, after a concrete preamble that builds a committed log without forking:
+// shape 1 = three 1-byte entries in one segment, committed; shape 2 = two segments (16+16 bytes | 16 bytes), committed.
+func vCrashProgramFrom(shape int, steps int, segSize int, powerLoss bool) {
 	opt := Options{FileMode: 0600, SegmentSize: segSize}
 	l, err := vOpen(vDirL, opt)
 	vAssert(err == nil, "open-empty")
 	cur := &vAbs{}
+	var preSizes []int
+	switch shape {
+	case 1:
+		preSizes = []int{1, 1, 1}
+	case 2:
+		preSizes = []int{16, 16, 16}
+	}
+	for _, n := range preSizes {
+		b := vBytes("pre", n)
+		vAssert(l.Append(b) == nil, "preamble-append")
+		cur.ents = append(cur.ents, b)
+	}
+	if len(preSizes) > 0 {
+		vAssert(l.Commit() == nil, "preamble-commit")
+		cur.committed = cur.last()
+	}
+	vCrashN = 0
 	// every (index -> bytes) ever appended since the last reset/back-removal that covered it; entries a completed
 	// RemoveGTE removed must never come back
 	var pre vAbs
@@ -157,3 +178,12 @@ func VH_C14_kill3() { vCrashProgram(3, 64, false) }
 
 //verif:check C14 stubs=logfs reach=crash,durable-required,end desc="power-loss model: as VH_C14_kill3 but after the crash only msync'ed data is guaranteed and any subset of later dirty 8-byte words reached disk" bounds="programs of 3 operations; crash point 1..14; segment size 64; word-granular tearing (finer than a real 4 KiB page)" maxdec=3000 maxconc=64
 func VH_C14_powerloss3() { vCrashProgram(3, 64, true) }
+
+//verif:check C14 stubs=logfs reach=crash,no-crash,durable-required,end desc="process-kill crash programs starting from a committed 3-entry log (one segment, or two segments): 3 further operations, crash at any stub boundary, real reopen" bounds="preamble of 3 committed entries in 1 or 2 segments, then programs of 3 operations; crash point 1..14 after the preamble or none" maxdec=3000
+func VH_C14_kill3_from_committed() { vCrashProgramFrom(1+vChoice(2), 3, 64, false) }
+
+//verif:check C14 tier=thorough stubs=logfs reach=crash,durable-required,end desc="power-loss crash programs from a committed 3-entry log" bounds="as VH_C14_kill3_from_committed, power-loss model" maxdec=3000 maxconc=64
+func VH_C14_powerloss3_from_committed() { vCrashProgramFrom(1+vChoice(2), 3, 64, true) }
+
+//verif:check C14 tier=thorough stubs=logfs reach=crash,durable-required,end desc="deeper crash programs" bounds="programs of 4 operations from the empty log, both models" maxdec=4000 maxconc=64
+func VH_C14_crash4() { vCrashProgram(4, 64, vChoice(2) == 1) }
